@@ -4,6 +4,20 @@ import json, os
 HERE = os.path.dirname(os.path.dirname(os.path.abspath(__file__)))
 
 CLAIMED = {
+    "C08": dict(
+        category="translation_validation",
+        technique="decision-table extraction from MIR per rule function + exhaustive comparison with a spec-derived model over a finite abstraction (flags x memberships x join rules x weak orderings of levels); const-evaluated flag matrix",
+        text="Decides decision equivalence (allow / reject / which sub-check) of auth_check's top level, create, member dispatch, join, invite, third-party-invite prefix, leave, ban, knock, "
+             "v1-v2 redaction, the power-levels scalar and map-entry rules, level defaults and fallbacks with the specification model for every scenario of the abstraction (~39k scenarios), "
+             "and the nine flags per room version. Content parsing (string vs integer levels, identifiers), signature validity in the third-party-invite loop are NOT decided.",
+        note="Trusted: spec/auth_rules.py (hand-written from the specification); opaque observations are uninterpreted.",
+        design="DESIGN.md §4 C08"),
+    "C09": dict(
+        technique="decision-table extraction of the selection + who-may-call/read-discipline over resolved callees + per-branch read-set containment + provenance of the auth-state map",
+        text="Decides the selection table under all scenarios (288) and the structural non-interference argument: state is read only through five FetchStateExt methods at constant types and "
+             "keys from the event, every read of a membership branch lies within that branch's selection, and the map behind the closure is filled only from auth_events and selected keys.",
+        note="Trusted: Event trait accessors are pure getters.",
+        design="DESIGN.md §4 C09"),
     "C19": dict(
         technique="decision-table extraction of both conversion directions for every discovered string enum (all macro expansions) + inverse/alias/prefix/fallback checks + frozen spelling table",
         text="Decides, for every enum with the derived/generated string conversions (48 in the default build, 64 with API features): From and AsRef tables are mutually inverse, "
